@@ -303,6 +303,12 @@ def run(ctx):
                  ('N1', 'write-stashed-state(N1,8)')):
         jobs += [[f'stash({h})', e, w] for e in names + txs[:20]]
         jobs += [[f'stash({h})', w, w], [f'stash({h})', w, 'update-descr(CH)', w]]
+    # a metric kind that none of the MDIB files contains (distribution sample array): create / update / value / delete /
+    # re-create through both interfaces
+    dist = ['create-dist-metric', 'create-dist-metric-entity', 'update-dist-metric', 'update-dist-metric-entity',
+            'dist-metric-value', 'delete(DIST)']
+    jobs += [list(h) for h in hist.sequences(dist, 3) if h[0].startswith('create')]
+    jobs += [['create-dist-metric', 'update-dist-metric', 'delete(DIST)', c, u] for c in dist[:2] for u in dist[2:5]]
     # aborted transactions (pre-commit handler raises) between a delete and a re-create, and in general
     creators = [n for n in names if n.startswith(('create', 'patient-new', 'patient-entity-new', 'parent+child', 'delete'))]
     for pre in ([PRE_STATES[3], PRE_STATES[5]] if ctx.quick else PRE_STATES):
